@@ -68,6 +68,13 @@ func fltText(f float64) string {
 	return fmt.Sprintf("%v", f)
 }
 
+func flt32Text(f float32) string {
+	if f == 0 {
+		return "0"
+	}
+	return fmt.Sprintf("%v", f)
+}
+
 // coqVal renders a Go value as a Gallina term of type value; map keys sorted.
 func coqVal(v interface{}) string {
 	switch x := v.(type) {
@@ -84,10 +91,14 @@ func coqVal(v interface{}) string {
 		return fmt.Sprintf("(VInt (%d))", x)
 	case int64:
 		return fmt.Sprintf("(VI64 (%d))", x)
+	case int32: // a sized integer: the model keeps one constructor for them
+		return fmt.Sprintf("(VI64 (%d))", x)
 	case uint64:
 		return fmt.Sprintf("(VU64 (%d))", x)
 	case float64:
 		return "(VFlt " + coqStr(fltText(x)) + ")"
+	case float32: // a float is carried as the text Go's fmt prints for it
+		return "(VFlt " + coqStr(flt32Text(x)) + ")"
 	case json.Number:
 		return "(VJNum " + coqStr(string(x)) + ")"
 	case map[string]interface{}:
@@ -196,6 +207,10 @@ func canon(v interface{}) string {
 		return fmt.Sprintf("i%d", x)
 	case int64:
 		return fmt.Sprintf("i64:%d", x)
+	case int32:
+		return fmt.Sprintf("i32:%d", x)
+	case float32:
+		return "f32:" + flt32Text(x)
 	case uint64:
 		return fmt.Sprintf("u64:%d", x)
 	case float64:
